@@ -102,6 +102,8 @@ func runChild(o childOpts) childOut {
 
 var markSeq atomic.Int64
 
+var numRe = regexp.MustCompile(`(0x[0-9a-f]+|[0-9]+)`)
+
 var fatalRe = regexp.MustCompile(`(?m)^(fatal error|panic|runtime: out of memory|SIGSEGV)[: ].*$`)
 
 // applyCrash turns the death of a child into a judged result when the engine had marked what it
@@ -142,7 +144,12 @@ func applyCrash(o *childOut, markFile string) {
 	}
 	sig := "crash|" + mk.Point + "|" + frame + "|" + strings.SplitN(msg, ":", 3)[0]
 	if parts := strings.SplitN(msg, ": ", 2); len(parts) == 2 {
-		sig = "crash|" + mk.Point + "|" + frame + "|" + parts[1]
+		// the message without its numbers (sizes, addresses), which differ from run to run
+		what := numRe.ReplaceAllString(parts[1], "N")
+		if i := strings.Index(what, " ("); i > 0 {
+			what = what[:i]
+		}
+		sig = "crash|" + mk.Point + "|" + frame + "|" + what
 	}
 	o.Res = &core.Result{Engine: mk.Engine, Verdict: "violation", Evals: 1, Class: "crash", Nontrivial: true, Tape: mk.Tape,
 		Violations: []core.Violation{{Signature: sig, Detail: core.MustJSON(map[string]string{"delivery": mk.What, "stderr": tail(o.Stderr, 1500), "exit": fmt.Sprint(o.ExitCode)})}},
